@@ -339,7 +339,7 @@ def signature(case, obs, msg):
         return {"kind": "negative-chunk-size"}
     if "(after DecodeError)" in (msg or ""):
         return {"kind": "connection-kept-after-decode-error"}
-    m = re.search(r"a chunk-size line is malformed \((b'.*')\) but reading ended normally", msg or "")
+    m = re.search(r"a chunk-size line is malformed \((b['\"].*['\"])\) but reading ended normally", msg or "")
     if m:
         try:
             line = eval(m.group(1))
